@@ -1,6 +1,15 @@
 from .core import *
+from .backend import UnsupportedDtypeError
 import functools
 import itertools
+
+
+def _str_members(backend, s):
+    """The members of a string are its characters (a plain list where the backend has no character arrays)."""
+    try:
+        return backend.str_to_chr_arr(s)
+    except UnsupportedDtypeError:
+        return [KGChar(c) for c in s]
 
 
 def _klong_true(q, backend):
@@ -72,7 +81,7 @@ def eval_adverb_each(f, a, op, backend):
     if isinstance(a,str) and is_iterable(a):  # a string; characters and symbols are atoms
         if is_empty(a):
             return a
-        r = [f(x) for x in backend.str_to_chr_arr(a)]
+        r = [f(x) for x in _str_members(backend, a)]
         # a list of characters is a string; strings (or anything else) stay list members
         return ''.join(r) if all(is_char(u) for u in r) else backend.kg_asarray(r)
     if is_iterable(a):
@@ -105,7 +114,7 @@ def eval_adverb_each_index(f, a, op, backend):
         return a
     if is_iterable(a):
         j = isinstance(a, str)
-        a = backend.str_to_chr_arr(a) if j else a  # the members of a string are characters
+        a = _str_members(backend, a) if j else a  # the members of a string are characters
         r = [f(backend.kg_asarray([i, x])) for i, x in enumerate(a)]
         # as for Each: a list of characters is a string
         return ''.join(r) if j and all(is_char(u) for u in r) else backend.kg_asarray(r)
@@ -169,7 +178,7 @@ def eval_adverb_each_left(f, a, b, backend):
         Examples: 1,:\[2 3 4]  -->  [[1 2] [1 3] [1 4]]
                   1,:/[2 3 4]  -->  [[2 1] [3 1] [4 1]]
     """
-    b = backend.str_to_chr_arr(b) if isinstance(b,str) else b
+    b = _str_members(backend, b) if isinstance(b,str) else b
     return backend.kg_asarray([f(a,x) for x in b])
 
 
@@ -177,7 +186,7 @@ def eval_adverb_each_right(f, a, b, backend):
     """
     see: eval_dyad_adverb_each_left
     """
-    b = backend.str_to_chr_arr(b) if isinstance(b,str) else b
+    b = _str_members(backend, b) if isinstance(b,str) else b
     return backend.kg_asarray([f(x,a) for x in b])
 
 
@@ -200,7 +209,7 @@ def eval_adverb_each_pair(f, a, op, backend):
     if is_atom(a) or (is_iterable(a) and len(a) == 1):
         return a
     j = isinstance(a, str)
-    a = backend.str_to_chr_arr(a) if j else a
+    a = _str_members(backend, a) if j else a
     return backend.kg_asarray([f(x,y) for x,y in zip(a[::],a[1::])])
 
 
@@ -240,7 +249,7 @@ def eval_adverb_over(f, a, op, backend):
     """
     if is_atom(a):
         return a
-    a = backend.str_to_chr_arr(a) if isinstance(a, str) else a  # the members of a string are characters
+    a = _str_members(backend, a) if isinstance(a, str) else a  # the members of a string are characters
     if len(a) == 1:
         return a[0]
     # Use backend's ufunc reduce when available for better performance
@@ -324,7 +333,7 @@ def eval_adverb_scan_over_neutral(f, a, b, backend):
         return a
     if is_atom(b):
         b = [b]
-    b = backend.str_to_chr_arr(b) if isinstance(b, str) else b  # the members of a string are characters
+    b = _str_members(backend, b) if isinstance(b, str) else b  # the members of a string are characters
     b = [f(a,b[0]), *b[1:]]
     r = list(itertools.accumulate(b,f))
     q = backend.kg_asarray(r)
@@ -338,7 +347,7 @@ def eval_adverb_scan_over(f, a, op, backend):
     """
     if is_atom(a):
         return a
-    a = backend.str_to_chr_arr(a) if isinstance(a, str) else a  # the members of a string are characters
+    a = _str_members(backend, a) if isinstance(a, str) else a  # the members of a string are characters
     # Use backend's ufunc accumulate when available for better performance
     np_backend = backend.np
     if isinstance(op, KGOp):
